@@ -840,6 +840,58 @@ fn closed_case(family: &'static str, fam: TFam, index: u64, r: &mut Rng, max_t: 
     c.sample_n(5, || json!({"family": family, "index": index, "diagram": desc, "tcount": tc, "runs": runs}));
 }
 
+/// Sherlock without simplification on T-dense diagrams (T-count 7-9): the driver is
+/// randomised and chains decompositions of different kinds on the same branch (a Magic5 term
+/// turns T spiders into Pauli spiders joined by plain edges, which the next matcher then
+/// sees), so each diagram is decomposed several times, sequentially, with the step log on:
+/// every step is checked against the sum of its terms, every result against E(d).
+fn sherlock_case(family: &'static str, index: u64, r: &mut Rng, reps: usize) {
+    let c = ctx();
+    let mut d = None;
+    for _ in 0..40 {
+        let fam = *r.pick(&[TFam::TOnly, TFam::TOnly, TFam::Random, TFam::Cats]);
+        let cand = gen_closed(r, fam, 9, 11);
+        if tdiag::tcount(&cand) >= 7 {
+            d = Some(cand);
+            break;
+        }
+    }
+    let Some(d) = d else {
+        c.skipped();
+        return;
+    };
+    let desc = d.to_json();
+    let tc = tdiag::tcount(&d);
+    let (g, _) = d.build::<quizx::vec_graph::Graph>(None);
+    let expected = match crate::snap::eval_graph(&g) {
+        Ok(t) if t.len() == 1 => t,
+        _ => {
+            c.skipped();
+            return;
+        }
+    };
+    let lease = Lease::take();
+    let pools = lease.set();
+    let mut runs = 0u64;
+    for _ in 0..reps {
+        if c.out_of_time() {
+            break;
+        }
+        let tries = r.pick(&[[1usize, 1, 1], [2, 2, 2], [3, 0, 0], [1, 0, 2], [2, 3, 0]]).to_vec();
+        let cfg = Cfg { drv: Drv::Sherlock(tries), simp: SimpFunc::NoSimp, split: r.chance(0.3) };
+        let res = run_once(&g, &cfg, Mode::Seq, pools);
+        let sv = process_events(collect_events(Some(&pools.my_threads())), family, index);
+        let _ = judge_run(family, index, &cfg, Mode::Seq, res, &expected, &desc, &sv);
+        runs += 1;
+        if !sv.is_empty() {
+            break;
+        }
+    }
+    c.case(family, Some(d.hash()));
+    c.evals(runs.saturating_sub(1));
+    c.count(&format!("tcount[sherlock-nosimp]:{tc:02}"), 1);
+}
+
 /// Schedule stress: one diagram with a T-count above the usual range, one configuration, one
 /// sequential run judged against E(d), then `reps` parallel runs spread over the pool sizes,
 /// each judged against E(d) and against the sequential result. The step log is off in this
@@ -1680,6 +1732,11 @@ pub fn run() {
         let fam = *r.pick(&[TFam::Random, TFam::Cats, TFam::Gadgets, TFam::TPair, TFam::TOnly, TFam::Multi]);
         staged_case("staged-completion", fam, i, r, max_t.min(8), max_sp)
     });
+
+    let (nsh, shreps) = t.pick((500usize, 6usize), (30_000usize, 12usize));
+    timed(&mut fam_wall, "sherlock-nosimp");
+    par_cases("sherlock-nosimp", nsh, move |r, i| sherlock_case("sherlock-nosimp", i, r, shreps));
+    process_events(collect_events(None), "sherlock-nosimp(leftover)", 0);
 
     let nd = t.pick(4000usize, 100_000usize);
     timed(&mut fam_wall, "direct-steps");
